@@ -201,7 +201,7 @@ func runECDSA(c *mon.Ctx, d *sigs.ECDSA) {
 	other := keys[len(keys)-1]
 	for si, i := range sel {
 		t := triples[i]
-		e.tamper(t.k, t.h, t.m, t.sig, other, c.Thorough() || si == 0 || t.h.name == "sha256" && t.m.cls == "0B")
+		e.tamper(t.k, t.h, t.m, t.sig, other, c.Thorough() || si == 0)
 	}
 	for _, h := range hashes[:2] {
 		m := msgCase{"40B", e.rng.Bytes(40)}
@@ -457,6 +457,7 @@ func (e *ecEnv) decide(cls string, pk signature.PublicKey, sig, msg []byte, h hc
 	var dec osig.Decision
 	r, s, why := e.p.ParseSig(sig)
 	alt := false
+	var zc *big.Int
 	if why != "" {
 		dec = osig.Decision{Reason: why}
 	} else {
@@ -466,6 +467,7 @@ func (e *ecEnv) decide(cls string, pk signature.PublicKey, sig, msg []byte, h hc
 			dec = osig.Decision{Reason: "hash-error"}
 		} else {
 			dec, _ = e.p.VerifyZ(Q, r, s, z)
+			zc = z
 			if a { // how many decisions depend on the truncation variant
 				if d2, _ := e.p.VerifyZ(Q, r, s, e.p.HashToInt(digestOf(h, msg))); d2.Accept != dec.Accept {
 					c.AddExtra("ecdsa_decisions_that_differ_under_fips_truncation", 1)
@@ -475,6 +477,19 @@ func (e *ecEnv) decide(cls string, pk signature.PublicKey, sig, msg []byte, h hc
 	}
 	desc := func() string {
 		return fmt.Sprintf("class=%s hash=%s Q=(%s,%s) sig=%s msg=%s truncation-variant=%v", cls, h.name, x.Text(16), y.Text(16), hx(sig), hx(msg), alt)
+	}
+	// oracle self-check on a deterministic sample: simultaneous multiplication against two separate multiplications
+	if zc != nil && (dec.Accept || sig[3]%8 == 0) {
+		si := new(big.Int).ModInverse(s, e.g.R)
+		u1 := new(big.Int).Mul(zc, si)
+		u2 := new(big.Int).Mul(r, si)
+		X := e.g.C.Add(e.g.C.Mul(e.g.G, u1.Mod(u1, e.g.R)), e.g.C.Mul(Q, u2.Mod(u2, e.g.R)))
+		acc := !X.Inf && new(big.Int).Mod(X.X[0], e.g.R).Cmp(r) == 0
+		if acc != dec.Accept {
+			c.Inconclusive("%s: the two evaluations of the verification equation disagree in the oracle on %s", N, desc())
+			return
+		}
+		c.AddExtra("oracle_equation_cross_checks", 1)
 	}
 	var ok bool
 	var err error
@@ -506,7 +521,7 @@ func digestOf(h hcfg, msg []byte) []byte {
 func (e *ecEnv) tamper(k ecKey, h hcfg, m msgCase, sig []byte, other ecKey, allBits bool) {
 	c, N, nb := e.c, e.N, e.nb
 	c.Current(N + " tamper " + h.name + "/" + m.cls)
-	pos := positions(e.rng, len(sig)*8, c.Pick(64, 256), allBits)
+	pos := positions(e.rng, len(sig)*8, c.Pick(40, 256), allBits)
 	par(len(pos), func(i int) {
 		part := "r"
 		if pos[i] >= 8*nb {
@@ -516,7 +531,7 @@ func (e *ecEnv) tamper(k ecKey, h hcfg, m msgCase, sig []byte, other ecKey, allB
 	})
 	c.AddExtra("ecdsa_sig_bit_flips", int64(len(pos)))
 	// message bits: with no hash object, bits beyond the truncation do not change z and the signature stays valid - the oracle decides
-	mpos := positions(e.rng, len(m.m)*8, c.Pick(48, 256), false)
+	mpos := positions(e.rng, len(m.m)*8, c.Pick(32, 256), false)
 	par(len(mpos), func(i int) {
 		cls := "msg-bit-flip"
 		if h.mk == nil && mpos[i] >= e.d.FrBits {
@@ -535,7 +550,7 @@ func (e *ecEnv) tamper(k ecKey, h hcfg, m msgCase, sig []byte, other ecKey, allB
 	}
 	// public key bits
 	pb := k.pk.Bytes()
-	kpos := positions(e.rng, len(pb)*8, c.Pick(48, 256), allBits && len(pb)*8 <= 512)
+	kpos := positions(e.rng, len(pb)*8, c.Pick(32, 256), allBits && len(pb)*8 <= 512)
 	par(len(kpos), func(i int) {
 		mut := flipBit(pb, kpos[i])
 		if pk2, ok := e.decodePub("pk-bit-flip", mut); ok {
